@@ -36,8 +36,8 @@ PROP = {
     "modules": ["GbVerif.Model.Core", "GbVerif.Model.Cpu", "GbVerif.Model.Interp", "GbVerif.Spec.Lcd", "GbVerif.Proofs.CoreIrq",
                 "GbVerif.Proofs.CoreCycles", "GbVerif.Proofs.CoreStep", "GbVerif.Proofs.CoreFrame", "GbVerif.Props.C06"],
     "exhaustive": False,
-    "rule": "quick 200 / thorough 3000 generated programs (1-3 subroutines, prologue programming TMA/TIMA/TAC/IE, 3-16 blocks out of "
-            "13 kinds, HALT/STOP/NOP tail loop) x 1000 / 4000 steps, per build; c09.frame: 7 fixed + 12 / 60 random (first block, "
+    "rule": "quick 200 / thorough 6000 generated programs (1-3 subroutines, prologue programming TMA/TIMA/TAC/IE, 3-16 blocks out of "
+            "13 kinds, HALT/STOP/NOP tail loop) x 1000 / 1500 steps, per build; c09.frame: 7 fixed + 12 / 60 random (first block, "
             "loop block) lengths. Non-trivial = some step was suspended or ended in a dispatch (frame: a block longer than a line).",
     "assumptions": ["run_frame_terminates*_partial: the STAT mode sampled by run_frame is LcdSpec.sched (C14 closed form) at "
                     "offset + delivered clocks - the composition of the device function with the LCD model is not done",
